@@ -97,6 +97,8 @@ const (
 	ParseMessageType         byte = 'P'
 	BindMessageType          byte = 'B'
 	ExecuteMessageType       byte = 'E'
+	SyncMessageType          byte = 'S'
+	FunctionCallMessageType  byte = 'F'
 	ErrorResponseType        byte = 'E'
 	ParseCompleteMessageType byte = '1'
 	BindCompleteMessageType  byte = '2'
@@ -361,6 +363,7 @@ func (proxy *PgProxy) handleClientPacket(ctx context.Context, packet *PacketHand
 			return false, errors.New("invalid type of registered prepared statement")
 		}
 		queryPacket := newExtendedQueryPacket(prepared, pgCursor.bind, executePacket)
+		queryPacket.batch = proxy.protocolState.currentBatch()
 		if err = proxy.protocolState.pendingQueryPackets.Add(queryPacket); err != nil {
 			return false, err
 		}
@@ -403,9 +406,12 @@ func (proxy *PgProxy) handleClientPacket(ctx context.Context, packet *PacketHand
 			return censored, err
 		}
 		queryPacket := newQueryPacket(query)
+		queryPacket.batch = proxy.protocolState.currentBatch()
 		if err = proxy.protocolState.pendingQueryPackets.Add(queryPacket); err != nil {
 			return false, err
 		}
+		// the database answers a simple query with its own ReadyForQuery
+		proxy.protocolState.endBatch()
 		return false, nil
 
 	case BindStatementPacket:
@@ -414,6 +420,10 @@ func (proxy *PgProxy) handleClientPacket(ctx context.Context, packet *PacketHand
 		return proxy.handleBindPacket(ctx, packet, logger)
 
 	default:
+		// Sync (and the obsolete FunctionCall) ends a batch: the database answers it with ReadyForQuery.
+		if packet.messageType[0] == SyncMessageType || packet.messageType[0] == FunctionCallMessageType {
+			proxy.protocolState.endBatch()
+		}
 		// Forward all other uninteresting packets to the database without processing.
 		return false, nil
 	}
